@@ -32,6 +32,7 @@ ph2-is-pattern $f #Pattern ph2 $.
 imp-is-pattern $a #Pattern ( \\imp ph0 ph1 ) $.
 proof-rule-prop-1 $a |- ( \\imp ph0 ( \\imp ph1 ph0 ) ) $.
 proof-rule-prop-2 $a |- ( \\imp ( \\imp ph0 ( \\imp ph1 ph2 ) ) ( \\imp ( \\imp ph0 ph1 ) ( \\imp ph0 ph2 ) ) ) $.
+rule.refl_1 $a |- ( \\imp ph0 ph0 ) $.
 """
 STATEMENTS = {0: '( \\imp ph1 ph1 )', 1: '( \\imp ph0 ph0 )', 2: '( \\imp ph2 ( \\imp ph0 ph2 ) )', 3: '( \\imp ph2 ( \\imp ph1 ( \\imp ph0 ph2 ) ) )'}
 MAND = {0: ['ph1'], 1: ['ph0'], 2: ['ph0', 'ph2'], 3: ['ph0', 'ph1', 'ph2']}     # database order of the $f statements
@@ -80,7 +81,7 @@ json.dump(out, sys.stdout)
 def label_standin(root, tier, seed):
     rng = random.Random(seed)
     n = 60 if tier == 'quick' else 1500
-    label_pool = ['imp-is-pattern', 'proof-rule-prop-1', 'proof-rule-prop-2']
+    label_pool = ['imp-is-pattern', 'proof-rule-prop-1', 'proof-rule-prop-2', 'rule.refl_1']
     viol, samples = [], []
     d = tempfile.mkdtemp(prefix='pi2_c15_')
     try:
